@@ -33,6 +33,17 @@ func genStatus(p *pkgInfo) string {
 	groups := map[key][]atomicRec{}
 	var order []key
 	var loads []atomicRec
+	// helpers called directly from Status(), with the locks held at the call
+	statusCallees := map[string]lockset{}
+	for _, c := range la.calls {
+		if c.caller == "kvElection.Status" {
+			if prev, ok := statusCallees[c.callee]; ok {
+				statusCallees[c.callee] = meet(prev, c.held)
+			} else {
+				statusCallees[c.callee] = c.held.clone()
+			}
+		}
+	}
 	for _, a := range la.atomics {
 		if !statusFields[a.field] {
 			continue
@@ -40,6 +51,16 @@ func genStatus(p *pkgInfo) string {
 		if a.op == "Load" {
 			if a.fn == "kvElection.Status" {
 				loads = append(loads, a)
+			} else if held, ok := statusCallees[a.fn]; ok {
+				// a load in a helper that Status() calls: made with what Status() holds at the call
+				b := a
+				b.held = b.held.clone()
+				for k, v := range held {
+					if _, has := b.held[k]; !has {
+						b.held[k] = v
+					}
+				}
+				loads = append(loads, b)
 			}
 			continue
 		}
